@@ -30,7 +30,9 @@ FORBIDDEN = re.compile(r"\b(sorry|admit|native_decide|bv_decide|implemented_by|u
 def use_repo_on_path():
     """Make `import WallGo` resolve to $WALLGO_REPO/src (the working tree under test)."""
     import warnings
+    import logging
     warnings.filterwarnings("ignore")
+    logging.disable(logging.WARNING)
     p = str(SRC)
     if p in sys.path:
         sys.path.remove(p)
